@@ -5,6 +5,7 @@ package main
 
 import (
 	"bytes"
+	"crypto/ecdsa"
 	"crypto/rsa"
 	"fmt"
 	"os"
@@ -40,10 +41,14 @@ type signedFile struct {
 }
 
 type run struct {
-	c      *gal.Ctx
-	keys   map[string]*rsa.PrivateKey
-	signed []*signedFile
-	known  map[string]int
+	c       *gal.Ctx
+	keys    map[string]*rsa.PrivateKey   // RSA keys by name (A, B, C: 2048; D, E: 3072)
+	ecc     map[string]*ecdsa.PrivateKey // ECC keys by name (P, P2: P-256; Q, Q2: P-224)
+	big     chan genResult               // RSA-3072 generation in flight
+	sigtab  map[string][]int             // scheme ids fiano signs with, per generation and key
+	nosweep map[string]bool              // signed files left out of the bit-flip sweep
+	signed  []*signedFile
+	known   map[string]int
 }
 
 func schemeID(s string) int {
@@ -138,18 +143,13 @@ func (r *run) addVerifyCase(kind string, doc int, file []byte, descr map[string]
 	return out, idx
 }
 
-// signOne runs SignKM/SignBPM of the suite on b and checks the first clause.
-func (r *run) signOne(b *bootguard.BootGuard, doc int, scheme, hashName, keyName string, desc shapeDesc, fullSearch bool, name string) *signedFile {
-	c := r.c
-	key := r.keys[keyName]
-	gen := genOf(b)
-	desc["scheme"], desc["hash"], desc["key"], desc["keybits"] = scheme, hashName, keyName, key.N.BitLen()
-	// what SignKM/SignBPM are to serialise first: the manifest with an EMPTY signature
-	// element.  Computed on a copy, so that a signed BPM object that is signed again
-	// reaches the code under test as it is (old key and signature still in place).
+// prepared: what SignKM/SignBPM are to serialise first -- the manifest with an EMPTY
+// signature element.  Computed on a copy, so that a signed BPM object that is signed
+// again reaches the code under test as it is (old key and signature still in place).
+func prepared(b *bootguard.BootGuard, doc int) (pman, error) {
 	pb := b
 	if doc == 1 {
-		if gen == 1 {
+		if genOf(b) == 1 {
 			m2 := *b.VData.BGbpm
 			m2.PMSE = *bgbootpolicy.NewSignature()
 			pb = &bootguard.BootGuard{Version: b.Version, VData: bootguard.VersionedData{BGbpm: &m2}}
@@ -159,11 +159,79 @@ func (r *run) signOne(b *bootguard.BootGuard, doc int, scheme, hashName, keyName
 			pb = &bootguard.BootGuard{Version: b.Version, VData: bootguard.VersionedData{CBNTbpm: &m2}}
 		}
 	}
-	pre, err := pmanOf(pb, doc)
+	return pmanOf(pb, doc)
+}
+
+// where the documented layout puts the KeySignature of the file SignKM/SignBPM
+// produce from the prepared structure, and where the signed portion ends
+func signedLayoutOffsets(gen, doc int, pre pman) (ksOff, signedEnd int) {
+	switch {
+	case doc == 0:
+		return pre.keysig, pre.keysig
+	case gen == 1:
+		return pre.pmse + 9, pre.pmse // "__PMSG__" + version
+	}
+	return pre.pmse + 12, pre.pmse + 12 // "__PMSG__" + version + var0 + element size
+}
+
+// hash algorithms the tool offers for signatures / digests (bg-prov help texts:
+// "SHA1, SHA256, SHA384, SM3")
+var offeredHash = map[int]bool{algSHA1: true, algSHA256: true, algSHA384: true, algSM3: true}
+
+func isNullAlg(a int) bool { return a == algNull || a == 0 }
+
+// onlyFieldRewritten: the two byte strings differ, and only inside ONE 16-bit
+// little-endian field that held `was` and now holds `now`.
+func onlyFieldRewritten(before, after []byte, was, now int) bool {
+	if len(before) != len(after) {
+		return false
+	}
+	first, last := -1, -1
+	for i := range before {
+		if before[i] != after[i] {
+			if first < 0 {
+				first = i
+			}
+			last = i
+		}
+	}
+	if first < 0 || last-first > 1 {
+		return false
+	}
+	for _, p := range []int{first, first - 1} {
+		if p >= 0 && p+2 <= len(before) && last < p+2 && le16(before[p:]) == was && le16(after[p:]) == now {
+			return true
+		}
+	}
+	return false
+}
+
+// signOne runs SignKM/SignBPM of the suite on b, with the scheme and hash NAMES as
+// the caller of bg-prov would give them, and checks the first clause.  The request
+// must be one the property covers (RSA-2048/3072 key, a scheme the tool offers for
+// the manifest's generation, a hash the tool offers or a null name that leaves the
+// choice to the scheme): signing has to succeed and the result has to verify.
+func (r *run) signOne(b *bootguard.BootGuard, doc int, scheme, hashName, keyName string, desc shapeDesc, fullSearch bool, name string) *signedFile {
+	c := r.c
+	key := r.keys[keyName]
+	gen := genOf(b)
+	desc["scheme"], desc["hash"], desc["key"], desc["keybits"] = scheme, hashName, keyName, key.N.BitLen()
+	pre, err := prepared(b, doc)
 	if err != nil {
 		c.OracleFail(-1, "cannot serialise the constructed manifest: "+err.Error(), "harness", desc)
 		return nil
 	}
+	sch, _ := algByName(gen, scheme)
+	// what the tool was ASKED to record as hash algorithm: the hash name for a CBnT
+	// BPM, the KM's own PubKeyHashAlg for a CBnT KM; BG 1.0 has no such choice
+	reqID := 0
+	switch {
+	case gen == 2 && doc == 1:
+		reqID, _ = algByName(2, hashName)
+	case gen == 2 && doc == 0:
+		reqID = pre.pkhash
+	}
+	reqNull := isNullAlg(reqID)
 	var out []byte
 	var serr error
 	p, pmsg := recoverCall(func() {
@@ -174,47 +242,43 @@ func (r *run) signOne(b *bootguard.BootGuard, doc int, scheme, hashName, keyName
 		}
 	})
 	if p || serr != nil {
-		c.OracleFail(-1, fmt.Sprintf("Sign%s failed on a supported key/scheme: panic=%v %s err=%v", docName(doc), p, pmsg, serr), "bootguard.Sign"+docName(doc), desc)
+		o := oErr
+		if p {
+			o = oPanic
+		}
+		idx := r.entryCase(gen, doc, pre, scheme, hashName, keyName, o, 0, 0, desc)
+		c.OracleFail(idx, fmt.Sprintf("Sign%s failed on a supported key/scheme/hash request (%s, %q): panic=%v %s err=%v", docName(doc), scheme, hashName, p, pmsg, serr), "bootguard.Sign"+docName(doc), desc)
 		return nil
 	}
 	// independent layout of the produced file
-	var ksOff, signedEnd int
-	switch {
-	case doc == 0:
-		ksOff = pre.keysig
-		signedEnd = ksOff
-	case gen == 1:
-		ksOff = pre.pmse + 9 // "__PMSG__" + version
-		signedEnd = pre.pmse
-	default:
-		ksOff = pre.pmse + 12 // "__PMSG__" + version + var0 + element size
-		signedEnd = ksOff
-	}
+	ksOff, signedEnd := signedLayoutOffsets(gen, doc, pre)
 	lay, lerr := parseLayout(out, gen, doc, signedEnd, ksOff)
 	if lerr != nil {
 		c.OracleFail(-1, "signed file does not have the documented layout: "+lerr.Error(), "bootguard.Sign"+docName(doc), desc)
 		return nil
 	}
-	sch := schemeID(scheme)
 	lens := signedLens(pre.ser, out, lay, schemeHashOf(sch), []int{signedEnd, pre.keysig, pre.pmse, pre.pmseks}, fullSearch)
 	sl := -1
 	if len(lens) == 1 {
 		sl = lens[0]
 	}
-	req := hashID(hashName)
-	lit := fmt.Sprintf("CSign %d %d %s %d %d %d %d", gen, doc, pman{nil, pre.keysig, pre.pmse, pre.pmseks, pre.pkhash}.lit(), sch, req, sl, lay.hashAlg)
+	lit := fmt.Sprintf("CSign %d %d %s %d %d %d %d", gen, doc, pman{nil, pre.keysig, pre.pmse, pre.pmseks, pre.pkhash}.lit(), sch, reqID, sl, lay.hashAlg)
 	d2 := shapeDesc{}
 	for k, v := range desc {
 		d2[k] = v
 	}
-	d2["signed_len"], d2["stored_hash"], d2["expected_signed_len"] = sl, lay.hashAlg, signedEnd
+	d2["signed_len"], d2["stored_hash"], d2["expected_signed_len"], d2["requested_hash"] = sl, lay.hashAlg, signedEnd, reqID
 	idx := c.Add(fmt.Sprintf("sign/gen%d-%s", gen, docName(doc)), lit, d2, true)
+	r.entryCase(gen, doc, pre, scheme, hashName, keyName, oOk, sl, lay.hashAlg, d2)
 
 	sf := &signedFile{name: name, gen: gen, doc: doc, file: out, lay: lay, desc: d2, by: "suite"}
 	vout, _ := r.addVerifyCase(fmt.Sprintf("verify/signed-gen%d-%s", gen, docName(doc)), doc, out, map[string]interface{}{"file": "suite-signed " + name, "shape": desc}, true)
 	sf.verifies = vout == oOk
 	raw := lay.rawValid(out)
 	input := map[string]interface{}{"shape": d2, "signed_file_hex": hexs(out)}
+	// the signed portion as the file stores it is what was serialised before signing
+	stable := len(out) >= signedEnd && len(pre.ser) >= signedEnd && bytes.Equal(out[:signedEnd], pre.ser[:signedEnd])
+	hn := map[int]string{algSHA1: "SHA1", algSHA256: "SHA256", algSHA384: "SHA384", algSM3: "SM3", algNull: "AlgNull", 0: "AlgUnknown"}
 	switch {
 	case vout == oOk && raw && sl == signedEnd:
 		c.OracleOK()
@@ -223,21 +287,30 @@ func (r *run) signOne(b *bootguard.BootGuard, doc int, scheme, hashName, keyName
 	case gen == 1 && doc == 1 && sl != signedEnd && vout != oOk:
 		// the repaired defect C18-bg10-signbpm-cut (or a relative of it): an ordinary failure
 		c.OracleFail(idx, fmt.Sprintf("BG 1.0 BPM signed by the suite does not verify with the suite: SignBPM signed the first %v bytes (PMSE.KeySignatureOffset() = %d), VerifyBPM checks the first %d (PMSEOffset()); the signature must cover the manifest up to the signature element", lens, pre.pmseks, signedEnd), "bootguard.SignBPM", input)
-	case gen == 2 && vout == oErr && sl == signedEnd && lay.hashAlg != schemeHashOf(sch) && pre.pkhashNullKM(doc) == false:
+	case gen == 2 && vout == oErr && sl == signedEnd && stable && lay.scheme == sch &&
+		!reqNull && offeredHash[reqID] && reqID != schemeHashOf(sch) && lay.hashAlg == reqID:
+		// EXACTLY the open finding: the pair the tool was asked for -- an explicit hash the
+		// tool offers that is not the digest fiano hard-wires for the scheme -- was recorded
+		// as asked, and cannot verify because the signature is over the scheme's own digest
 		r.known[fHashLabel]++
-		c.OracleFailKnown(idx, fHashLabel, fmt.Sprintf("CBnT %s signed with %s/%s does not verify: the signature is over the %s digest the scheme hard-wires but Signature.HashAlg says %#x", docName(doc), scheme, hashName, map[int]string{algSHA256: "SHA256", algSHA384: "SHA384"}[schemeHashOf(sch)], lay.hashAlg), "bootguard.Sign"+docName(doc), input)
-	case gen == 2 && doc == 0 && vout == oErr && sl == signedEnd && pre.pkhashNullKM(doc):
+		c.OracleFailKnown(idx, fHashLabel, fmt.Sprintf("CBnT %s signed with %s/%s does not verify: the signature is over the %s digest the scheme hard-wires but Signature.HashAlg says %#x", docName(doc), scheme, hn[reqID], hn[schemeHashOf(sch)], lay.hashAlg), "bootguard.Sign"+docName(doc), input)
+	case gen == 2 && doc == 0 && vout == oErr && sl == signedEnd && lay.scheme == sch &&
+		reqNull && lay.hashAlg == schemeHashOf(sch) &&
+		len(out) >= signedEnd && len(pre.ser) >= signedEnd && onlyFieldRewritten(pre.ser[:signedEnd], out[:signedEnd], pre.pkhash, lay.hashAlg):
+		// EXACTLY the open finding: the label is the scheme's own digest (nothing wrong with
+		// it), the only change in the signed portion is the PubKeyHashAlg field, rewritten
+		// from null to that label after the signature was computed
 		r.known[fNullPkHash]++
 		c.OracleFailKnown(idx, fNullPkHash, "CBnT KM with a null PubKeyHashAlg does not verify after SignKM: SetSignature overwrites the (signed) PubKeyHashAlg field after the signature was computed", "bootguard.SignKM", input)
+	case gen == 2 && vout != oOk && sl == signedEnd && reqNull && lay.hashAlg != schemeHashOf(sch):
+		c.OracleFail(idx, fmt.Sprintf("CBnT %s signed with %s and the hash choice left to the scheme (%s) does not verify: the signature is over the %s digest of the signed portion, but the signature element names hash algorithm %#x -- the suite replaced the null request by an algorithm of its own before signing", docName(doc), scheme, map[bool]string{true: fmt.Sprintf("hash name %q", hashName), false: fmt.Sprintf("PubKeyHashAlg %#x", reqID)}[doc == 1], hn[schemeHashOf(sch)], lay.hashAlg), "bootguard.Sign"+docName(doc), input)
+	case gen == 2 && vout != oOk && sl == signedEnd && !reqNull && lay.hashAlg != reqID:
+		c.OracleFail(idx, fmt.Sprintf("CBnT %s signed with %s/%s does not verify and the signature element names hash algorithm %#x, not the requested one: the suite changed the requested algorithm", docName(doc), scheme, hn[reqID], lay.hashAlg), "bootguard.Sign"+docName(doc), input)
 	default:
-		c.OracleFail(idx, fmt.Sprintf("manifest signed by the suite does not verify with the suite (outcome %d, signature covers %v bytes, expected %d, raw-valid %v)", vout, lens, signedEnd, raw), "bootguard.Sign"+docName(doc)+"/Verify"+docName(doc), input)
+		c.OracleFail(idx, fmt.Sprintf("manifest signed by the suite does not verify with the suite (outcome %d, signature covers %v bytes, expected %d, raw-valid %v, requested hash %#x, stored hash %#x, signed portion as serialised before signing: %v)", vout, lens, signedEnd, raw, reqID, lay.hashAlg, stable), "bootguard.Sign"+docName(doc)+"/Verify"+docName(doc), input)
 	}
 	r.signed = append(r.signed, sf)
 	return sf
-}
-
-func (p pman) pkhashNullKM(doc int) bool {
-	return doc == 0 && (p.pkhash == algNull || p.pkhash == 0)
 }
 
 func main() {
@@ -250,23 +323,31 @@ func main() {
 			panic(rec)
 		}
 	}()
-	r := &run{c: c, keys: map[string]*rsa.PrivateKey{}, known: map[string]int{}}
+	r := &run{c: c, keys: map[string]*rsa.PrivateKey{}, ecc: map[string]*ecdsa.PrivateKey{}, known: map[string]int{}, sigtab: map[string][]int{}, nosweep: map[string]bool{}}
 	t0 := time.Now()
 	r.makeKeys()
 	c.Rep.Extra["keygen_seconds"] = time.Since(t0).Seconds()
 
-	r.signAll()
-	r.artifacts()
-	r.sweeps()
-	r.binding()
-	r.lifecycles()
-	r.passwords()
-	r.detectAndStruct()
+	stage := map[string]float64{}
+	timed := func(name string, f func()) {
+		t := time.Now()
+		f()
+		stage[name] = time.Since(t).Seconds()
+	}
+	timed("signAll", r.signAll)
+	timed("artifacts", r.artifacts)
+	timed("sweeps", r.sweeps)
+	timed("binding", r.binding)
+	timed("lifecycles", r.lifecycles)
+	timed("passwords", r.passwords)
+	timed("detectAndStruct", r.detectAndStruct)
+	c.Rep.Extra["stage_seconds"] = stage
 
 	c.Rep.Extra["known_finding_hits"] = r.known
 	c.Rep.Extra["seconds"] = time.Since(t0).Seconds()
-	c.Finish("BG 1.0 and CBnT 2.0 KM/BPM built with fiano constructors + bootguard.NewVData/GetBPMPubHash (random SVN/ID/revision/flags, 0-4 KM hashes, 0-6 IBB segments, 1-3 digests, optional TXT/PCD/PM/reserved elements), signed by SignKM/SignBPM with RSA-2048 (thorough: and 3072) x {RSASSA,RSAPSS} x {SHA256,SHA384,(SHA1,SM3,AlgNull)} and verified by NewKM/NewBPM+VerifyKM/VerifyBPM; " +
-		"single-bit mutants of signed files (quick: all bits of 3 files per kind, stride elsewhere; thorough: all bits of every file); KM x BPM key pairs for KMHasBPMHash/BPMKeyMatchKMHash; life cycles of ONE manifest object (KM: fresh / without hash / parsed from a signed file / written and read back / the shipped artifact, then 3-8 steps of GetBPMPubHash with another key or algorithm, failing GetBPMPubHash calls (unknown name, non-hash name, ed25519 key), SignKM, WriteKM+NewKM, KMSVN change, ending with SignKM; BPM: signed, re-read, BPMSVN change, signed again with another key/scheme) with the binding check on the structures after every GetBPMPubHash and through NewBPMAndKM on the files after every signing, judged against the LAST key placed / LAST signer, plus Verify on the object and on its written file after every change; 13x13 password pairs, bit flips and truncations of the wrapped key; DetectBGV and unknown-Version cases. " +
+	c.Finish("BG 1.0 and CBnT 2.0 KM/BPM built with fiano constructors + bootguard.NewVData/GetBPMPubHash (random SVN/ID/revision/flags, 0-4 KM hashes, 0-6 IBB segments, 1-3 digests, optional TXT/PCD/PM/reserved elements), signed by SignKM/SignBPM with EVERY key size the tool generates in EVERY tier (RSA-2048 and RSA-3072 from GenRSAKey, as KM key and as BPM key, and both mixed-size pairs) x {RSASSA,RSAPSS} x {SHA256,SHA384,SHA1,SM3} and verified by NewKM/NewBPM+VerifyKM/VerifyBPM; " +
+		"the signing entry points called with NAMES in any letter case: null/unknown hash names (ALGNULL, ALGUNKNOWN) for the CBnT SignBPM with both schemes and both key sizes, null/unknown PubKeyHashAlg for the CBnT SignKM, hash arguments of the BG 1.0 SignBPM (which has no hash choice), scheme names the tool does not offer (refused, or signed so that it verifies), names that are not hashes and ECC P-224/P-256 keys from GenECCKey (outside the quantifier: counted; nothing unverifiable may be accepted); the two GetAlgFromString tables on 46 names; " +
+		"single-bit mutants of signed files (quick: per kind and key size all bits of 2 resp. 1 files, a stride over 3 more; thorough: all bits of every file); KM x BPM key pairs over five keys of both sizes for KMHasBPMHash/BPMKeyMatchKMHash, on structures and through NewBPMAndKM on files; life cycles of ONE manifest object (KM: fresh / without hash / parsed from a signed file / written and read back / the shipped artifact, then 3-8 steps of GetBPMPubHash with another key (either size, ECC P-256) or algorithm, failing GetBPMPubHash calls (unknown name, non-hash name, null name, empty name, ed25519 and P-224 keys), SignKM, WriteKM+NewKM, KMSVN change, ending with SignKM; BPM: signed (explicit or null hash name), re-read, BPMSVN change, signed again with another key/scheme) with the binding check on the structures after every GetBPMPubHash and through NewBPMAndKM on the files after every signing, judged against the LAST key placed / LAST signer (ECC: must fail closed), plus Verify on the object and on its written file after every change; 13x13 password pairs, bit flips and truncations of the wrapped key; DetectBGV and unknown-Version cases. " +
 		"A case is non-trivial when it reaches a signature/hash/AEAD decision; distinct = distinct Gallina literal. Sweeps are oracle checks; a sample of mutants becomes correspondence cases.")
 }
 
